@@ -218,6 +218,16 @@ func journal(prop, test string, raw []byte) {
 	_ = os.WriteFile(journalPath, b, 0o644)
 }
 
+// Journal / Unjournal are for tests that drive a stress themselves instead of through Prop.Run: while the stress runs, a
+// case is on record, so that a worker death in the middle of it can be attributed (bin/check) instead of being
+// "inconclusive".
+func Journal(prop, test string, c any) {
+	raw, _ := json.Marshal(c)
+	journal(prop, test, raw)
+}
+
+func Unjournal() { unjournal() }
+
 func unjournal() {
 	if journalPath != "" {
 		_ = os.Remove(journalPath)
